@@ -56,6 +56,10 @@ pub struct Engine {
     decides_this_path: u64,
     pub error: Option<String>,
     pub log: Option<std::fs::File>,
+    /// text of every class definition sent so far / of the current session's declarations
+    cls_text: String,
+    session_text: String,
+    explorations: u64,
 }
 
 thread_local! {
@@ -98,6 +102,9 @@ impl Engine {
             decides_this_path: 0,
             error: None,
             log: None,
+            cls_text: String::new(),
+            session_text: String::new(),
+            explorations: 0,
         };
         e.send("(set-option :print-success false)\n(set-logic QF_BV)\n");
         e
@@ -179,6 +186,7 @@ impl Engine {
             }
             s.push_str("))\n");
             self.send(&s);
+            self.cls_text.push_str(&s);
         }
         self.defined_cls[cls.id] = true;
     }
@@ -205,6 +213,8 @@ impl Engine {
             s.push_str(&format!("(assert {})\n", x));
         }
         self.send(&s);
+        self.session_text = s.replace("(push)\n", "");
+        self.explorations += 1;
         self.trail.clear();
         self.pos = 0;
         self.memo.clear();
@@ -547,6 +557,15 @@ where
                 }
             }
             s.push_str(")))\n");
+            // every 400th closing query is also written out as a stand-alone script, so that
+            // a second solver (cvc5) can re-decide it
+            if let Ok(dir) = std::env::var("SYMX_DUMP_DIR") {
+                if eng.explorations % 400 == 7 && s.len() < 2_000_000 {
+                    let name = format!("{}/closing_{:?}_{}.smt2", dir, std::thread::current().id(), eng.explorations).replace("ThreadId(", "t").replace(")", "");
+                    let body = format!("(set-logic QF_BV)\n{}{}{}(check-sat)\n", eng.cls_text, eng.session_text, s.replace("(push)\n", ""));
+                    let _ = std::fs::write(name, body);
+                }
+            }
             eng.send(&s);
             let sat = eng.check_sat();
             eng.send("(pop)\n");
